@@ -436,6 +436,18 @@ def _rate_classes(run, prog):
             v = ex
             if isinstance(ex, ast.Name) and len(ldefs.get(ex.id, [])) == 1:
                 v = ldefs[ex.id][0]
+            elif isinstance(ex, ast.Name) and len(ldefs.get(ex.id, [])) == 2 and all(isinstance(d, ast.Constant) for d in ldefs[ex.id]):
+                # the same choice written as a statement: if extrapolate: t = 'nearest' else: t = 'none'
+                arms = {}
+                for t_, d_, st_ in stores(init):
+                    if isinstance(t_, ast.Name) and t_.id == ex.id:
+                        ff = facts(guards_of(init, st_) or [])
+                        if ('extrapolate', 'true', '') in ff:
+                            arms[True] = d_
+                        elif ('extrapolate', 'false', '') in ff:
+                            arms[False] = d_
+                if set(arms) == {True, False}:
+                    v = ast.IfExp(test=ast.Name(id='extrapolate', ctx=ast.Load()), body=arms[True], orelse=arms[False])
             if isinstance(v, ast.IfExp) and norm(v.test) == 'extrapolate' and isinstance(v.orelse, ast.Constant) and v.orelse.value == 'none' \
                     and isinstance(v.body, ast.Constant) and v.body.value in ('nearest', 'linear', 'quadratic'):
                 run.ok('C07-R5', '%s %s' % (ci.name, dotted(c.func)), norm(v), sample=False)
@@ -504,8 +516,12 @@ def _degenerate_axes(run, ci, init, K):
             if v is ref[0]:
                 continue
             run.subject('C07-R7')
-            f = facts(_subst_bool_locals(guards_of(init, st) or [], init))
+            gs = _subst_bool_locals(guards_of(init, st) or [], init)
+            f = facts(gs)
             one = _len1_facts(f)
+            from ..flow import implied_atoms
+            imp = implied_atoms(gs, ['len(%s) == 1' % xa, 'len(%s) == 1' % ya])
+            one |= {a[4:-6] for a, v in imp.items() if v}
             name = dotted(v.func)
             key = K + '__init__|degenerate:%s:' % fld
             if name == 'Constant2D' and len(v.args) == 1:
